@@ -39,7 +39,12 @@ var properties = []Property{
 		Rules:     []string{"SCAN.balance", "SCAN.fallback", "PANIC.progress"},
 		Technique: "path-sensitive abstract interpretation of every tokenizer state over a symbolic scanner (consumed-character stack vs. builder contents)",
 	},
-	 {ID: "C05"}, 
+	 
+	{ID: "C05", Title: "Reused instances give history-independent results",
+		Rules:     []string{"STATE.reset", "STATE.lookahead", "SYM.ancestry", "PURE.calc", "PURE.tmpl", "PURE.global"},
+		Technique: "write-set of each reusable operation (effect analysis) versus the unconditional store set of its reset routine; typestate of the one-token look-ahead",
+	},
+	 
 	{ID: "C06", Title: "Variant operators implement the arithmetic of the first operand's type",
 		Rules:     []string{"OPS.cell", "OPS.null", "OPS.convert", "OPS.override", "OPS.in", "PANIC.div", "PANIC.shift", "GRAM.emptycase", "CONV.cell", "CONV.tag"},
 		Technique: "normalised SSA expression trees per (operator × first-operand type) cell compared with the operator matrix of the statement; boolean cells and the Null policy folded into truth tables; dominating-guard check for division and shifts",
